@@ -3,7 +3,8 @@ JSON-lines driver for E10b (class_path model).  Run with
   lake env lean --run Drv/ClassPath.lean < cases.jsonl
 Input lines
   {"setenv": ENV}                                  -> {"env": n-classes}      (the environment stays for the following lines)
-  {"base": path, "sources": [VAL], "fuel": n}      -> {"ok": VAL | null, "ctors": [CTOR]} | {"err": kind}
+  {"base": path, "sources": [VAL], "fuel": n, "default": VAL|null}
+                                                   -> {"ok": VAL | null, "ctors": [CTOR]} | {"err": kind}
   {"explicit": VAL, "prev": VAL|null, "base": path}-> {"ok": VAL} | {"err": kind}    (shortToExplicit)
 ENV   = {"classes":[{"path":s,"name":s,"abstract":b,"params":[PARAM]}], "edges":[[sub,super]],
          "imports":[[path, {"k":"cls","path":s} | {"k":"func","path":s,"ret":s,"params":[PARAM]} | {"k":"other"}]]}
@@ -130,7 +131,11 @@ def step (E : ClassEnv) (j : Json) : Json × ClassEnv :=
     | .error e => (Json.mkObj [("err", .str (errStr e))], E)
   | _ =>
     let srcs := (getArr j "sources").map valOfJson
-    match adaptAll E (getNat j "fuel" 24) (getStr j "base") srcs with
+    let dflt := match j.getObjVal? "default" with
+      | .ok .null => none
+      | .ok d => some (valOfJson d)
+      | _ => none
+    match adaptAllWithDefault E (getNat j "fuel" 24) (getStr j "base") dflt srcs with
     | .error e => (Json.mkObj [("err", .str (errStr e))], E)
     | .ok none => (Json.mkObj [("ok", .null), ("ctors", .arr #[])], E)
     | .ok (some s) =>
